@@ -186,6 +186,7 @@ func (c *Ctx) Fresh(t types.Type, prefix string, low bool, as *[]*Term) Value {
 			l := c.FreshVar(prefix+".len", BV(64))
 			if as != nil {
 				*as = append(*as, c.Sle(c.Const(64, 0), l), c.Slt(l, c.Const(64, 1<<40)))
+				*as = append(*as, c.Implies(c.IsNil(p), c.Eq(l, c.Const(64, 0))))
 			}
 			return Str{p, l}
 		case u.Kind() == types.UnsafePointer:
@@ -206,6 +207,7 @@ func (c *Ctx) Fresh(t types.Type, prefix string, low bool, as *[]*Term) Value {
 		cp := c.FreshVar(prefix+".cap", BV(64))
 		if as != nil {
 			*as = append(*as, c.Sle(c.Const(64, 0), l), c.Sle(l, cp), c.Slt(cp, c.Const(64, 1<<40)))
+			*as = append(*as, c.Implies(c.IsNil(p), c.Eq(cp, c.Const(64, 0))))
 		}
 		return Slice{p, l, cp}
 	case *types.Interface:
@@ -241,9 +243,10 @@ func (c *Ctx) wfAssume(v Value, as *[]*Term) {
 	switch x := v.(type) {
 	case Slice:
 		*as = append(*as, c.Sle(c.Const(64, 0), x.Len), c.Sle(x.Len, x.Cap), c.Slt(x.Cap, c.Const(64, 1<<40)),
-			c.Ult(x.P.O, c.Const(64, 1<<47)))
+			c.Ult(x.P.O, c.Const(64, 1<<47)), c.Implies(c.IsNil(x.P), c.Eq(x.Cap, c.Const(64, 0))))
 	case Str:
-		*as = append(*as, c.Sle(c.Const(64, 0), x.Len), c.Slt(x.Len, c.Const(64, 1<<40)), c.Ult(x.P.O, c.Const(64, 1<<47)))
+		*as = append(*as, c.Sle(c.Const(64, 0), x.Len), c.Slt(x.Len, c.Const(64, 1<<40)), c.Ult(x.P.O, c.Const(64, 1<<47)),
+			c.Implies(c.IsNil(x.P), c.Eq(x.Len, c.Const(64, 0))))
 	case Struct:
 		for _, f := range x.F {
 			c.wfAssume(f, as)
